@@ -1135,6 +1135,56 @@ def check_side_doors(repo, rep):
            loc=ut.loc(ik.node))
 
 
+def check_remapped_members_are_blacklisted(repo, rep):
+    """R07j: a member published under another name (attribute_remapping)
+    must not stay reachable under its own name.  build_yaqlization_settings
+    is applied abstractly to a remapping with both forms of target -- the
+    plain name and the (name, keyword-renaming) pair: the blacklist of the
+    resulting settings contains every target name when
+    blacklist_remapped_attributes is on, and the host's own blacklist
+    either way."""
+    from sa import absint
+    mod = repo.module('yaql.yaqlization')
+    fi = mod.functions.get('build_yaqlization_settings')
+    if fi is None:
+        raise AnalysisError('anchor vanished: build_yaqlization_settings')
+
+    def inst(v, cls_expr):
+        names = [model.norm(x).rsplit('.', 1)[-1] for x in (
+            cls_expr.elts if isinstance(cls_expr, ast.Tuple)
+            else [cls_expr])]
+        return type(v).__name__ in names
+    remap = {'owner': 'internal_owner',
+             'run': ('execute', {'cmd': 'command'}),
+             'stop': ['halt', {}]}
+    targets = {'internal_owner', 'execute', 'halt'}
+    for on in (True, False):
+        it = absint.Interp(repo, mod, None, inst)
+        args = {'blacklist': ['hidden'], 'attribute_remapping': remap,
+                'blacklist_remapped_attributes': on}
+        try:
+            out = it.run(fi.node, {k: v for k, v in args.items()
+                                   if k in fi.params()})
+        except (absint.Unsupported, absint._Raise, RecursionError,
+                TypeError) as e:
+            rep.note('R07j: build_yaqlization_settings not interpretable '
+                     '(%r)' % (e,))
+            return
+        st = out[1] if out[0] == 'return' and isinstance(out[1], dict) \
+            else {}
+        bl = st.get('blacklist')
+        bl = set(bl) if isinstance(bl, (set, frozenset, list, tuple)) \
+            else None
+        want = {'hidden'} | (targets if on else set())
+        ok = bl is not None and want <= bl and (on or not (targets & bl))
+        rep.ob('R07j', '%s/blacklist[remapped=%s]' % (fi.key, on), ok,
+               'with blacklist_remapped_attributes=%s and the remapping %r '
+               'the settings blacklist %s; expected %s: the real member '
+               'behind an alias stays reachable under its own name' % (
+                   on, remap, sorted(bl) if bl is not None else out,
+                   sorted(want)), loc=mod.loc(fi.node))
+
+
 def run(repo, rep):
     rep.rule('R07a', 'REFLECTION-SINKS are enumerated and owned: dynamic '
              'getattr/setattr/hasattr, vars/dir/eval/exec/import/..., '
@@ -1170,6 +1220,10 @@ def run(repo, rep):
         'access on the statement CFG, be applied to the raw name with the '
         'object\'s own settings, and the object parameter must be typed '
         'with the matching Yaqlized capability.')
+    rep.rule('R07j', 'REMAPPED-MEMBERS-ARE-BLACKLISTED: every target of '
+             'attribute_remapping, in either form, is blacklisted under its '
+             'own name')
+    check_remapped_members_are_blacklisted(repo, rep)
     uni = unimod.Universe(repo)
     nfun = 0
     nsinks = 0
